@@ -1357,8 +1357,9 @@ struct Gen
 			case 2: mag = r.logrange(1e-3, 1e3); break;
 			default: mag = 1; break;
 		}
-		int style = (int) r.below(7);
+		int style = (int) r.below(8);
 		double w  = r.range(0.1, 2.0), ph = r.range(0, 6.28);
+		double decades = r.range(5, 60) * r.sign();	  // style 7: a spectrum falling (or rising) by this many decades across the table
 		double acc = r.range(-1, 1);
 		for(size_t i = 0; i < N; i++)
 		{
@@ -1371,6 +1372,7 @@ struct Gen
 				case 3: v = (double) r.irange(-3, 3); break;					// small integers, plateaus
 				case 4: v = r.chance(0.15) ? r.sign() * r.range(5, 50) : 0.1 * r.range(-1, 1); break;	// spikes
 				case 5: v = (i % 7 < 3) ? acc : (acc = r.range(-1, 1)); break;	// plateaus
+				case 7: v = std::pow(10.0, -decades * (double) i / (double) N) * (1.0 + 0.2 * r.range(-1, 1)); break;   // steep spectrum
 				default: v = r.sign() * r.logrange(1e-6, 1e6); break;			// mixed magnitude
 			}
 			y[i] = v * mag;
